@@ -349,14 +349,15 @@ type runner struct {
 // checkDisk compares the cache directory with the complete versions ever
 // offered.  It returns per target the version on disk (0 = no file, -1 = not
 // a complete version) and a printable summary.
-func (ru *runner) checkDisk(w *world, dir string, where string, f *faultSpec, wit func() map[string]any) (map[string]int, map[string]string) {
+func (ru *runner) checkDisk(w *world, dir string, f *faultSpec, wit func() map[string]any) (vers map[string]int, summ map[string]string, origin map[string]string) {
 	r := ru.r
-	vers := map[string]int{}
-	summ := map[string]string{}
+	vers = map[string]int{}
+	summ = map[string]string{}
+	origin = map[string]string{}
 	files, err := readDisk(dir)
 	if err != nil {
 		r.Inconclusive("cannot read cache dir: " + err.Error())
-		return vers, summ
+		return vers, summ, origin
 	}
 	names := make([]string, 0, len(files))
 	for n := range files {
@@ -384,12 +385,21 @@ func (ru *runner) checkDisk(w *world, dir string, where string, f *faultSpec, wi
 			vers[t] = -1
 		}
 		what := "unrecognised"
-		for k, fb := range w.faultBodies[t] {
+		org := ""
+		fks := make([]string, 0, len(w.faultBodies[t]))
+		for k := range w.faultBodies[t] {
+			fks = append(fks, k)
+		}
+		sort.Strings(fks)
+		for _, k := range fks {
+			fb := w.faultBodies[t][k]
 			switch {
 			case bytes.Equal(fb, b):
 				what = "exactly the body of faulty response " + k
-			case len(b) > 0 && len(b) < len(fb) && bytes.HasPrefix(fb, b) && what == "unrecognised":
-				what = "a prefix of the body of faulty response " + k
+				org = k
+			case len(b) < len(fb) && bytes.HasPrefix(fb, b) && what == "unrecognised":
+				what = fmt.Sprintf("a prefix (%d of %d bytes) of the body of faulty response %s", len(b), len(fb), k)
+				org = k
 			}
 		}
 		if what == "unrecognised" {
@@ -400,10 +410,15 @@ func (ru *runner) checkDisk(w *world, dir string, where string, f *faultSpec, wi
 			}
 		}
 		summ[n] = "NOT-A-COMPLETE-VERSION: " + what
-		kind := "none"
-		if f != nil {
-			kind = kindClass(f.Kind)
+		// the key names the faulty response the bytes come from (stable over
+		// later rounds), or failing that the fault of the current round
+		kind := "unrecognised-bytes"
+		if org != "" {
+			kind = kindClass(org[:strings.IndexByte(org, '@')])
+		} else if f != nil {
+			kind = "unrecognised-bytes-during-" + kindClass(f.Kind)
 		}
+		origin[t] = kind
 		if wit == nil {
 			continue
 		}
@@ -414,7 +429,7 @@ func (ru *runner) checkDisk(w *world, dir string, where string, f *faultSpec, wi
 		r.Violation(fmt.Sprintf("cache-file-not-a-complete-version:%s:%s", targetClass(t), kind),
 			"a cache file holds bytes that are not any complete version ever served for it", wm)
 	}
-	return vers, summ
+	return vers, summ, origin
 }
 
 func (ru *runner) runScenario(sc scenario) {
@@ -473,12 +488,17 @@ func (ru *runner) runScenario(sc scenario) {
 			pre, _ = versionsOf(o)
 			preMarks = o.Marks
 		} else {
-			dv, _ := ru.checkDisk(w, dir, "before-start", nil, nil)
+			dv, _, _ := ru.checkDisk(w, dir, nil, nil)
 			for _, t := range servingLists {
 				pre[t] = dv[t]
 			}
 			if iv := dv[tIdx]; iv > 0 {
 				preMarks = []int{iv}
+				if bytes.Contains(w.legit[tIdx][iv], []byte("idx-known-")) {
+					// the index in the cache has no usable entry for rl_b:
+					// what a start makes of it is not compared
+					pre[tRLb] = -1
+				}
 			}
 		}
 		rec.Pre, rec.PreMarks = pre, preMarks
@@ -502,6 +522,7 @@ func (ru *runner) runScenario(sc scenario) {
 		}
 		rec.Res = &res
 		r.Bucket("rounds", 1)
+		exercised := false
 		if f != nil {
 			r.Bucket("faulty_rounds", 1)
 			r.Bucket("fault/"+kind, 1)
@@ -509,6 +530,7 @@ func (ru *runner) runScenario(sc scenario) {
 			r.Bucket(fmt.Sprintf("fault_position/%d", i), 1)
 			if hits := len(w.srv[f.Target].takeLog()); hits > 0 || f.Kind == fRefused {
 				r.Bucket("faults_exercised", 1)
+				exercised = true
 				ru.mu.Lock()
 				ru.triples[fmt.Sprintf("%s|%s|%d", kind, f.Target, i)] = struct{}{}
 				ru.mu.Unlock()
@@ -541,7 +563,7 @@ func (ru *runner) runScenario(sc scenario) {
 		}
 
 		// the cache directory
-		_, rec.Disk = ru.checkDisk(w, dir, "round", f, func() map[string]any {
+		_, rec.Disk, _ = ru.checkDisk(w, dir, f, func() map[string]any {
 			wm := witness()
 			wm["this_round"] = rec
 			return wm
@@ -587,8 +609,11 @@ func (ru *runner) runScenario(sc scenario) {
 				if !known {
 					key = fmt.Sprintf("%s:%s:%s", key, tclass, kind)
 				}
-				fail(key, "the list whose download failed does not serve its previous complete version any more",
-					map[string]any{"list": t, "served_before": p, "served_after": q})
+				what := "the list whose download failed does not serve its previous complete version any more"
+				if known {
+					what = "a list whose index entry has a valid id but an unusable URL is no longer served instead of keeping its previous complete version"
+				}
+				fail(key, what, map[string]any{"list": t, "served_before": p, "served_after": q})
 			case !affected && q != p && q != v:
 				key := "other-list-wrong-version"
 				if q == 0 {
@@ -618,7 +643,7 @@ func (ru *runner) runScenario(sc scenario) {
 			}
 		}
 		// valid entries of a partially invalid index are applied
-		if f != nil && isIdxVariant(f.Kind) && !ambiguous {
+		if f != nil && isIdxVariant(f.Kind) && !ambiguous && exercised {
 			r.Bucket("partial_index_rounds", 1)
 			var missing []string
 			if !intsEq(o.Marks, []int{v}) {
@@ -679,7 +704,7 @@ func (ru *runner) finalRestart(w *world, sc scenario, conf instConf, recs []roun
 	witness := func() map[string]any {
 		return map[string]any{"scenario": sc, "pattern": sc.pattern(), "rounds": recs, "step": "restart with every server down"}
 	}
-	dv, summ := ru.checkDisk(w, conf.Dir, "before-restart", lastFault, nil)
+	dv, summ, origin := ru.checkDisk(w, conf.Dir, lastFault, nil)
 	// the start-up needs the index, the services, both safe-search lists and
 	// the three hash lists; rule lists that are missing are merely not served
 	need := []string{tIdx, tSvc, tSSGen, tSSYT, tHPAdult, tHPDanger, tHPNewReg}
@@ -697,21 +722,21 @@ func (ru *runner) finalRestart(w *world, sc scenario, conf instConf, recs []roun
 	res := in.start(ctx)
 	r.Bucket("restarts_with_server_down", 1)
 	if !res.ok() {
-		var bad []string
-		for _, t := range need {
-			if dv[t] < 0 {
-				bad = append(bad, targetClass(t))
-			}
-		}
-		cause := "all-needed-files-are-complete-versions"
-		if len(bad) > 0 {
-			cause = "unusable-" + strings.Join(bad, "+")
-		}
 		wm := witness()
 		wm["cache_dir"] = summ
 		wm["start_result"] = res
-		r.Violation(fmt.Sprintf("restart-fails:%s:after-%s", cause, kind),
-			"after the refresh rounds a restart with the server unreachable fails although every cache file exists", wm)
+		what := "after the refresh rounds a restart with the server unreachable fails although every cache file exists"
+		nbad := 0
+		for _, t := range need {
+			if dv[t] < 0 {
+				nbad++
+				wm["unusable_cache_file_of"] = t
+				r.Violation(fmt.Sprintf("restart-fails:%s-cached-from-%s", targetClass(t), origin[t]), what, wm)
+			}
+		}
+		if nbad == 0 {
+			r.Violation(fmt.Sprintf("restart-fails:all-needed-files-are-complete-versions:after-%s-on-%s", kind, tclass), what, wm)
+		}
 		return
 	}
 	r.Bucket("restarts_ok", 1)
@@ -932,6 +957,8 @@ func TestCheck(t *testing.T) {
 	r.Assume("every list version is recognisable by probe hosts unique to it (first, middle and last entry); a version counts as served only if all three are filtered")
 	r.Assume("a complete version is a body offered with status 200 and a complete transfer; bodies of faulty responses never count")
 	r.Assume("temporary files (names starting with '.') are ignored in the cache directory")
+	r.Assume("crash points: the child pins the refreshing goroutine to one OS thread so that strace's per-thread 'when=N' enumerates the file system calls of a refresh in order; SIGKILL is delivered on entry of the N-th call (the call does not take effect)")
+	r.Assume("durability against power loss (effect of a missing fsync) is not observable by killing a process and is not covered")
 	r.Assume("a round in which an error not explained by the injected fault was reported (e.g. a spurious timeout under load) is only held to the lenient rules; it is counted as ambiguous")
 
 	scratch := os.Getenv("VERIF_SCRATCH")
